@@ -242,6 +242,15 @@ def handle (prop op : String) (args : List Sexp) (impl : Sexp) : Reply :=
       | list [atom "err", s] => .error (decSet s)
       | _ => .error []
     ⟨enc m == enc implR, enc m, impl != sPanic && evalCheckedOk x pv implR, "spec"⟩
+  | "evalc.own", [e, v] =>
+    -- the result of checked evaluation (with its full error list) is a function of the tree, not of which
+    -- of its nodes are shared; and it is the model's at the level of values / sets of missing inputs
+    let x := Fn.E (decExpr e); let pv := decPVal v
+    (match impl with
+     | list [p, q] | list [atom "L", p, q] =>
+       let same := p == q
+       ⟨same, p, same && impl != sPanic && (decExpr e).vars.length ≥ 0 && (x.inputs.all (fun n => pv.keys.contains n) || !(decStr p).startsWith "Ok"), "result-independent-of-node-sharing"⟩
+     | _ => ⟨false, atom "bad-answer", false, "result-independent-of-node-sharing"⟩)
   | "eval.of", [e, _, v, d] =>
     -- the conversions keep the function and the inputs (C01), so the converted object must evaluate
     -- like the expression in all three modes
@@ -436,6 +445,9 @@ def handle (prop op : String) (args : List Sexp) (impl : Sexp) : Reply :=
         | .ok t => sOk (encTable t)
         | .error e => sErr (csvErrName e)
       let r := csvImportOk text impl
+      -- the two readers of the model must agree wherever both apply (quote-free text)
+      let readersAgree := !simpleDialect text.toList || csvRecordsQ text.toList == some (csvRecords text.toList)
+      if !readersAgree then ⟨false, atom "model-readers-disagree", r.1, r.2⟩ else
       ⟨(isOkS m && m == impl) || (isErrS m && isErrS impl), m, r.1, r.2⟩
   | "csv.to", [t, fi, fo] =>
     let x := decTable t
